@@ -105,6 +105,16 @@ func C14(r *simkit.Run) {
 		f.Stmts = append([]Stmt{{ID: fmt.Sprintf("f%d.ck", f.Idx), Kind: KDDL, SQL: journalDDL}}, f.Stmts...)
 		r.Probe("directory-with-checkpoint")
 	}
+	// Sometimes a file gathers statistics (ANALYZE): the engine then keeps a table of its own,
+	// sqlite_stat1, with rows in it.
+	analyze := t.Chance("directory-runs-analyze", 1, 5)
+	if analyze {
+		f := files[firstReplayed+t.Draw("analyze-file", len(files)-firstReplayed)]
+		f.Stmts = append(f.Stmts,
+			Stmt{ID: fmt.Sprintf("f%d.ix", f.Idx), Kind: KDDL, SQL: fmt.Sprintf("CREATE INDEX IF NOT EXISTS journal_n_f%d ON journal (n)", f.Idx)},
+			Stmt{ID: fmt.Sprintf("f%d.an", f.Idx), Kind: KDDL, SQL: "ANALYZE"})
+		r.Probe("directory-runs-analyze")
+	}
 	// Sometimes a file wraps some of its statements in an explicit, well-formed BEGIN ... COMMIT
 	// block: whatever stops the replay inside it (a crash, an interrupt) stops it with that
 	// transaction open.
@@ -157,6 +167,9 @@ func C14(r *simkit.Run) {
 			fmt.Fprintf(&b, "CREATE TABLE s%d (id int, v text);\n", i)
 			if t.Chance("sql-schema-index", 1, 3) {
 				fmt.Fprintf(&b, "CREATE INDEX s%d_v ON s%d (v);\n", i, i)
+				if analyze {
+					b.WriteString("ANALYZE;\n")
+				}
 			}
 		}
 		return b.String()
